@@ -150,8 +150,43 @@ def run(E: Engine, rep: Report, tier: str) -> dict:
             if isinstance(n_, ast.Assign) and any(isinstance(t_, ast.Attribute) and isinstance(t_.value, ast.Name) and t_.value.id == "self" and t_.attr == nm for t_ in n_.targets) and isinstance(n_.value, (ast.List, ast.Dict, ast.Set, ast.ListComp, ast.DictComp)):
                 return True
         return False
+    def _elem_class_mutable(nm):
+        """The list attribute holds instances of a program class that can be edited in place (not frozen / NamedTuple)."""
+        for n_ in ast.walk(cls_sched.node):
+            ann = None
+            if isinstance(n_, ast.AnnAssign) and isinstance(n_.target, ast.Attribute) and getattr(n_.target.value, "id", None) == "self" and n_.target.attr == nm:
+                ann = ast.unparse(n_.annotation)
+            elif isinstance(n_, ast.AnnAssign) and isinstance(n_.target, ast.Name) and n_.target.id == nm:
+                ann = ast.unparse(n_.annotation)
+            if ann and "[" in ann:
+                el = ann.split("[", 1)[1].rstrip("]").split(".")[-1]
+                c_ = next((k for k in E.P.classes.values() if k.name == el), None)
+                if c_ is None:
+                    return False
+                decos = " ".join(ast.unparse(d) for d in c_.node.decorator_list)
+                bases = " ".join(ast.unparse(b) for b in c_.node.bases)
+                return "frozen=True" not in decos and "NamedTuple" not in bases and "Enum" not in bases
+        return False
+
+    def _shallow_copy_of(a_):
+        """list(self.X) / self.X.copy() / self.X[:] / [b for b in self.X] -> X"""
+        a_ = unobj(a_)
+        if a_[0] == "call" and a_[1] in (("name", "list"), ("name", "tuple")) and len(a_[2]) == 1 and a_[2][0][0] == "attr" and a_[2][0][1] == ("name", "self"):
+            return a_[2][0][2]
+        if a_[0] == "call" and a_[1][0] == "attr" and a_[1][2] == "copy" and a_[1][1][0] == "attr" and a_[1][1][1] == ("name", "self") and not a_[2]:
+            return a_[1][1][2]
+        if a_[0] == "idx" and a_[1][0] == "attr" and a_[1][1] == ("name", "self") and a_[2][0] == "slice":
+            return a_[1][2]
+        if a_[0] == "comp" and len(a_[3]) == 1 and a_[3][0][0][0] == "attr" and a_[3][0][0][1] == ("name", "self") and a_[2] == ("elem", a_[3][0][0], 0):
+            return a_[3][0][0][2]
+        return None
+
     for l in ctor:
         for i_, a_ in enumerate(list(l.value[2]) + [v for _k, v in l.value[3]]):
+            sc_ = _shallow_copy_of(a_)
+            if sc_ is not None and _mutable_field(sc_) and _elem_class_mutable(sc_):
+                rep.violation("SIB", f"_ChannelSchedule.get_samples|samples-own-their-data|{sc_}", f"ChannelSamples is given a shallow copy of `self.{sc_}`: the list is new but its elements are the schedule's own mutable objects, so disabling / modifying the EOM mode on the sequence afterwards edits the blocks of samples taken earlier (their padding in extend_duration changes)", E.where(gs, l.node))
+                continue
             if a_[0] == "attr" and a_[1] == ("name", "self") and _mutable_field(a_[2]):
                 rep.violation("SIB", f"_ChannelSchedule.get_samples|samples-own-their-data|{a_[2]}", f"ChannelSamples is given `self.{a_[2]}`, the schedule's own mutable container: calls made on the sequence afterwards (disable/enable_eom_mode, modify_eom_setpoint) change the samples taken before them (their EOM blocks and the padding of extend_duration)", E.where(gs, l.node))
             else:
